@@ -122,6 +122,16 @@ def handle : List String → String
       | some b => s!"{p.blocksPerRetarget} {p.minSpan} {p.maxSpan} {hex8 b}"
       | none => "assert"
     | _, _, _ => "bad-op"
+  | "phdr" :: rest =>
+    match parseParams? rest with
+    | some (p, g :: hdrs) =>
+      match parseHdr? g, hdrs.mapM parseHdr? with
+      | some g, some hs =>
+        ",".intercalate ((processHeaders p [g] hs).2.map (fun v => match v with
+          | .ok => "ok" | .badTarget => "badTarget" | .badDifficulty => "badDifficulty"
+          | .timeTooOld => "timeTooOld" | .timeWarp => "timeWarp" | .assert => "assert" | .panic => "panic"))
+      | _, _ => "bad-op"
+    | _ => "bad-op"
   | "nextn" :: rest => handleNext rest
   | "mtpn" :: ts => handleMtp ts
   | "next" :: rest => handleNext rest
